@@ -1,5 +1,6 @@
 CONSTANTS
   MutLevels = {0, 1, 2}
+  Vals = {1}
 INIT Init
 NEXT Next
 INVARIANTS Sound Complete BaseRoundTrip
